@@ -23,11 +23,13 @@ CONFS2 = ["T14", "in", "iv22", "ir15", "iT16", "iQ17", "U", "K",
           # the adapted object is a super object super(C, c): it provides what the classes AFTER C implement (Ya: declared
           # there), not what C (Yd) or the instance (Yi) declares
           "Ya", "Yd", "Yi",
+          # the adapted object is a tuple (0, 1, 2 items): one object, never an argument list
+          "t0", "t1", "t2",
           "kn", "kv23", "kr18", "kT19", "sn", "sv24", "sr20", "mn", "mv25", "mQ26"]
 
 
 def normcf(cf):
-    if cf in ("U", "K"):
+    if cf in ("U", "K", "t0", "t1", "t2"):
         return "a"
     if cf[0] in "iksm":
         cf = cf[1:]
